@@ -145,30 +145,7 @@ func runC08(r *Run) {
 				rs.Violation(encode, encode.Pos(), "Encode does not truncate Raw first", "re-encoding appends to or overlays the previous bytes")
 			}
 		}
-		dm := cl.DecodeM
-		r.Analysed(dm)
-		var trunc ssa.Instruction
-		for _, a := range fieldAccesses(dm, attrsF) {
-			if a.Kind == "store" && truncatingValue(a.Instr.(*ssa.Store).Val, attrsF) {
-				trunc = a.Instr
-			}
-		}
-		rs.Instance("Decode|truncates Attributes", true, nil)
-		if trunc == nil {
-			rs.Violation(dm, dm.Pos(), "Decode does not truncate the attribute list", "attributes of the previously decoded message stay visible")
-		} else {
-			for _, a := range fieldAccesses(dm, attrsF) {
-				if a.Kind == "store" && a.Instr != trunc && !instrDominates(trunc, a.Instr) {
-					rs.Violation(dm, instrPos(a.Instr), "append before truncation", "new attributes are appended to the previous message's list")
-				}
-			}
-			idx := errorResultIndex(dm)
-			for _, ret := range returnsOf(dm) {
-				if isNilConst(deref(ret.Results[idx])) && !instrDominates(trunc, ret) {
-					rs.Violation(dm, instrPos(ret), "successful return before the attribute list is truncated", "decoding (e.g. a header-only message) succeeds but the previous message's attributes stay visible through Get/Contains/Parse")
-				}
-			}
-		}
+		checkDecodeReset(r, rs, cl.DecodeM, attrsF)
 	}
 	rs.Done()
 
@@ -198,4 +175,94 @@ func checkAddCopies(r *Run, rc *RuleCtx, le *linEval, add *ssa.Function) {
 			rc.Violation(add, instrPos(c), "append onto the caller's slice", "Add writes into the caller's buffer")
 		}
 	})
+}
+
+// freshRooted: the value is an append chain (through phis and reslices) whose every root is an empty or
+// fresh list: nil, f[:0] of the field itself, or a make.
+func freshRooted(v ssa.Value, fv *types.Var, depth int, seen map[ssa.Value]bool) bool {
+	if depth > 12 || v == nil {
+		return false
+	}
+	if truncatingValue(v, fv) {
+		return true
+	}
+	if seen[v] {
+		return true
+	}
+	seen[v] = true
+	switch x := v.(type) {
+	case *ssa.MakeSlice:
+		return true
+	case *ssa.ChangeType:
+		return freshRooted(x.X, fv, depth+1, seen)
+	case *ssa.Slice:
+		if x.Low == nil {
+			return freshRooted(x.X, fv, depth+1, seen)
+		}
+	case *ssa.Phi:
+		for _, e := range x.Edges {
+			if !freshRooted(e, fv, depth+1, seen) {
+				return false
+			}
+		}
+		return true
+	case *ssa.Call:
+		if isBuiltinCall(x, "append") {
+			return freshRooted(x.Call.Args[0], fv, depth+1, seen)
+		}
+	}
+	return false
+}
+
+// checkDecodeReset: on every path of (*Message).Decode the attribute list is emptied (a store of nil,
+// of Attributes[:0], or of a list built from one of those) before anything is appended to the field's
+// previous content and before every successful return.
+func checkDecodeReset(r *Run, rs *RuleCtx, dm *ssa.Function, attrsF *types.Var) {
+	p := r.P
+	r.Analysed(dm)
+	idx := errorResultIndex(dm)
+	const done = 1
+	rep := map[ssa.Instruction]bool{}
+	nTrunc := 0
+	seenT := map[ssa.Instruction]bool{}
+	q := &PathQuery{P: p, Fn: dm}
+	q.Step = func(in ssa.Instruction, deferred bool, st uint64, c *PathCtx) (uint64, bool) {
+		s, ok := in.(*ssa.Store)
+		if !ok {
+			return st, false
+		}
+		fa, ok := s.Addr.(*ssa.FieldAddr)
+		if !ok || fieldOfAddr(fa) != attrsF {
+			return st, false
+		}
+		if freshRooted(s.Val, attrsF, 0, map[ssa.Value]bool{}) {
+			if !seenT[in] {
+				seenT[in] = true
+				nTrunc++
+			}
+			return st | done, false
+		}
+		if st&done == 0 && !rep[in] {
+			rep[in] = true
+			rs.ViolationPath(dm, instrPos(in), "append before truncation", "new attributes are appended to the previous message's list", c.Witness(dm, in))
+		}
+		return st, false
+	}
+	q.AtReturn = func(ret *ssa.Return, st uint64, c *PathCtx) {
+		if idx < 0 || st&done != 0 || rep[ret] {
+			return
+		}
+		if c.NilState(ret.Results[idx]) == +1 {
+			rep[ret] = true
+			rs.ViolationPath(dm, instrPos(ret), "successful return before the attribute list is truncated", "decoding (e.g. a header-only message) succeeds but the previous message's attributes stay visible through Get/Contains/Parse", c.Witness(dm, ret))
+		}
+	}
+	q.Run()
+	if q.Exhausted {
+		rs.Violation(dm, dm.Pos(), "path exploration exhausted", "undecided")
+	}
+	rs.Instance("Decode|truncates Attributes", true, map[string]interface{}{"fn": fnName(dm), "truncating_stores": nTrunc})
+	if nTrunc == 0 {
+		rs.Violation(dm, dm.Pos(), "Decode does not truncate the attribute list", "attributes of the previously decoded message stay visible")
+	}
 }
